@@ -243,6 +243,21 @@ def check(fb, ctx):
             if e and e[2] and any(mirq.dominates(eb, f, c.bb) for f in e[2]) and not mirq.dominates(eb, e[1], c.bb):
                 # and the true edge returns ShadowedVariable
                 ok = True
+        if not ok:
+            # equivalent forms of the test (a loop over the closure parameters with `values.contains_key(p)`, `is_disjoint`, ..): in
+            # the block that evaluates the closure, an earlier statement tests membership between the current bindings (parameter 1
+            # of evaluate) and the closure's parameters and returns Err(ShadowedVariable)
+            hb_ = fb.hir_of(eb)
+            p_values = hirq.param_ids(hb_, 1)
+            for blk in find_all(hb_["body"], lambda z: z.get("k") == "block" and z.get("stmts")):
+                st = blk["stmts"] + ([blk["expr"]] if blk.get("expr") else [])
+                idx = [i_ for i_, s_ in enumerate(st) if isinstance(s_, dict) and find_all(s_, lambda z: hirq.calls_path(z, r"Binary::evaluate_with_closure$")) and not find_all(s_, lambda z: z.get("k") == "block" and z is not s_ and z.get("stmts") and find_all(z, lambda y: hirq.calls_path(y, r"Binary::evaluate_with_closure$")))]
+                for i_ in idx:
+                    for s_ in st[:i_]:
+                        test = find_all(s_, lambda z: z.get("k") == "mcall" and z.get("name") in ("contains_key", "contains", "intersection", "is_disjoint") and find_all(z, lambda y: hirq.is_lid(y, p_values)))
+                        err = find_all(s_, lambda z: z.get("k") == "ret" and find_all(z, lambda y: (hirq.ctor_name(y) or "").endswith("Expression::ShadowedVariable")))
+                        if test and err:
+                            ok = True
         ctx.check(ok, "SHADOW", "Expression::evaluate -> evaluate_with_closure", "SHADOW|Expression::evaluate", "evaluate_with_closure is reachable without taking the `no shadowed variable` edge of the intersection test", f"{eb['file']}:{c.ln}")
     hb = fb.hir_of(eb)
     shadow_err = [n for n in find_all(hb["body"], lambda n: (hirq.ctor_name(n) or "").endswith("Expression::ShadowedVariable"))]
@@ -305,8 +320,8 @@ def intern_rule(fb, ctx, fn, rule):
         for br in mirq.result_branches(fb, b, p):
             if br[0] == "branch":
                 D, some_t, others = br[1], br[2], br[3]
-                # discriminant 0 = None for Option: result_branches reports ok_value=0 -> `ok` target is the None edge
-                none_t = some_t
-                if all(mirq.dominates(b, none_t, pc.bb) for pc in pushes):
-                    ok = True
+                # position() returns an Option: the pushes sit under its None edge (`others`), the Some edge returns the index
+                for none_t in others:
+                    if none_t is not None and all(mirq.dominates(b, none_t, pc.bb) for pc in pushes):
+                        ok = True
     ctx.check(ok, rule, f"{fn.split('::')[-2]}::insert pushes only after a failed lookup", f"{rule}|{fn}", "a new entry is appended without first looking the value up (equal strings would get different indices)", where)
